@@ -381,6 +381,8 @@ class TaskDispatcher(object):
         # task-creators already evaluated by a DelayedLoader (every name in
         # `creates` has its own copy of the loader, and of its `created` flag)
         self.evaluated_creators = []
+        # created task name -> (bad_deps, ignored_deps) of its placeholder
+        self.inherited_status = {}
 
         self.generator = self._dispatcher_generator(selected_tasks)
 
@@ -392,6 +394,10 @@ class TaskDispatcher(object):
         # first time, create node
         if node is None:
             node = ExecNode(self.tasks[task_name], parent)
+            inherited = self.inherited_status.get(task_name)
+            if inherited:
+                node.bad_deps.extend(inherited[0])
+                node.ignored_deps.extend(inherited[1])
             node.generator = self._add_task(node)
             self.nodes[task_name] = node
             return node
@@ -496,6 +502,11 @@ class TaskDispatcher(object):
                     if not nt.loader:
                         nt.loader = DelayedLoaded
                     self.tasks[nt.name] = nt
+                    # the `executed` task failed / is ignored: only the
+                    # placeholder's node was told, hand it to created tasks
+                    if node.bad_deps or node.ignored_deps:
+                        self.inherited_status[nt.name] = (
+                            node.bad_deps[:], node.ignored_deps[:])
                 # wildcard task_dep of the created tasks: TaskControl
                 # expanded only the patterns known at start-up
                 for nt in new_tasks:
